@@ -269,6 +269,15 @@ def run_case(prog, cfg=None, faults=None, cleanups=None, hooks=False, record_eve
         def make_step(kind):
             def step_impl(ctx, n):
                 spath = o2p.get(id(ctx.scenario))
+                if n >= 900:
+                    # nested step run through Context.execute_steps(): not part of the scenario's call log
+                    if kind == "fail":
+                        assert False, "nested boom"
+                    if kind == "error":
+                        raise RuntimeError("nested err")
+                    if kind == "xfail":
+                        ctx.execute_steps(u"When step %d fail" % (n + 1))
+                    return
                 obs["calls"].append((spath, n))
                 if cleanups:
                     idx = [i for i, s in enumerate(ctx.scenario.all_steps) if s.name.startswith("step %d " % n)]
@@ -280,6 +289,10 @@ def run_case(prog, cfg=None, faults=None, cleanups=None, hooks=False, record_eve
                         obj = getattr(ctx, attr, None)
                         if obj is not None:
                             obj.status
+                if kind in P.EXEC_VARIANTS:
+                    nested = {"xpass": "pass", "xfail": "fail", "xerror": "error", "x2fail": "xfail"}[kind]
+                    ctx.execute_steps(u"Given step %d %s" % (900 + n, nested))
+                    return
                 if kind == "failS":
                     raise _SubAssertion("boom %d" % n)
                 if kind == "pendingS":
@@ -313,7 +326,7 @@ def run_case(prog, cfg=None, faults=None, cleanups=None, hooks=False, record_eve
                 return async_run_until_complete(astep)
             return step_impl
 
-        for kind in P.OUTCOMES + P.CLASS_VARIANTS:
+        for kind in P.OUTCOMES + P.CLASS_VARIANTS + P.EXEC_VARIANTS:
             if kind != "undefined":
                 reg.add_step_definition("step", "step {n:d} %s" % kind, make_step(kind))
         if cfg.get("convert") or "'convert" in repr(prog):
@@ -356,6 +369,9 @@ def run_case(prog, cfg=None, faults=None, cleanups=None, hooks=False, record_eve
                     if cleanups and "tag" not in name and "step" not in name:
                         register_cleanups(ctx, ("hook", name, ref))
                     f = faults.get(k)
+                    if f == "skipf" and getattr(ctx, "feature", None) is not None:
+                        # any hook may exclude the REST of the enclosing feature (it is "already partly executed")
+                        ctx.feature.skip("rest excluded by hook %s" % name)
                     if f == "skip":
                         # user code that EXCLUDES the element concerned at run time (documented: feature/rule/scenario.skip())
                         if args and "tag" not in name and "step" not in name:
